@@ -70,7 +70,7 @@ def replay_case(pid, case, result, bdir, extra_defs=()):
         if first is None: first = r
     if not runs: return dict(reproduced=False, why='no trace in log')
     strip = lambda d: re.sub(r'^line \d+ ', '', d)
-    rp = dict(property=pid, case=case.name, harness=os.path.relpath(case.harness, VERIF), fixture=case.fixture['name'],
+    rp = dict(property=pid, case=case.name, harness=os.path.relpath(getattr(case, 'harness_src', case.harness), VERIF), fixture=case.fixture['name'],
               defs=case.defs + list(extra_defs), fixture_defs=case.fixture.get('defs', []), runs=runs,
               cbmc_failed=sorted(want), native_failed=sorted(got))
     os.makedirs(os.path.join(REPLAYS, pid), exist_ok=True)
@@ -100,6 +100,14 @@ def execute(pid, tier, seed, cases, assumptions, extra_cov=None, budget_s=None, 
     if only: cases = [c for c in cases if fnmatch.fnmatch(c.name, only)]
     bdir = cases[0].fixture['workdir'] if cases else os.path.join(BUILD, pid)
     logdir = os.path.join(bdir, 'logs')
+    # snapshot the harness sources into the build dir: the run (incl. line-number based trace extraction and the native
+    # replay builds) is then immune to edits of /verif/harness while it is in progress
+    snap = {}
+    for c in cases:
+        if c.harness not in snap:
+            os.makedirs(bdir, exist_ok=True)
+            dst = os.path.join(bdir, 'snapshot_' + os.path.basename(c.harness)); shutil.copyfile(c.harness, dst); snap[c.harness] = dst
+        c.harness_src = c.harness; c.harness = snap[c.harness]
     known = load_known()
     broken = []; violations = []; known_lines = []
     # ---- translation validation (per run)
@@ -132,6 +140,19 @@ def execute(pid, tier, seed, cases, assumptions, extra_cov=None, budget_s=None, 
             queries.append(qw); qcase[qw.name] = (c, 'witness')
     log('%s/%s: %d cases -> %d CBMC queries on %d workers' % (pid, tier, len(cases), len(queries), jobs or NCPU))
     results = run_queries(queries, logdir, jobs=jobs, budget_s=budget_s)
+    # ---- re-derive the counterexamples of failing queries WITHOUT --slice-formula, in parallel (the sliced trace omits
+    # assignments outside the failing assertion's cone of influence, so the nondet stream would be incomplete)
+    rq = []
+    for r in results:
+        c, kind = qcase[r['name']]
+        if kind != 'witness' and r.get('status') == 'fails' and not any('unwinding assertion' in d for _, d in r.get('failed', [])):
+            q2 = c.query(c._exdefs if kind == 'excl' else [], suffix=('+excl' if kind == 'excl' else '') + '+replaytrace'); q2.noslice = True
+            rq.append((r['name'], q2))
+    retrace = {}
+    if rq:
+        log('re-deriving %d counterexample traces without slicing for replay' % len(rq))
+        for (nm, _), r2 in zip(rq, run_queries([q for _, q in rq], logdir, jobs=jobs)):
+            retrace[nm] = r2
     # ---- triage
     byname = {r['name']: r for r in results}
     undecided = []
@@ -156,8 +177,7 @@ def execute(pid, tier, seed, cases, assumptions, extra_cov=None, budget_s=None, 
         try:
             # the sliced formula's trace omits assignments outside the failing assertion's cone of influence, so the
             # nondet stream would be incomplete: re-derive the counterexample without --slice-formula for the replay
-            q2 = c.query(exd, suffix=('+excl' if kind == 'excl' else '') + '+replaytrace'); q2.noslice = True
-            r2 = run_query(q2, logdir)
+            r2 = retrace.get(r['name'], {})
             if r2.get('status') == 'fails':
                 r = dict(r); r['log'] = r2['log']; r['failed'] = r2.get('failed', r.get('failed'))
             rp = replay_case(pid, c, r, bdir, exd)
@@ -171,7 +191,7 @@ def execute(pid, tier, seed, cases, assumptions, extra_cov=None, budget_s=None, 
                 r['name'], rp.get('native_rc'), rp.get('infeasible'), rp.get('native_failed'), descs[:3]))
             continue
         for k in hits:
-            known_lines.append('KNOWN-FINDING: property=%s %s [%s; case %s]' % (pid, k['what'], k['id'], c.name))
+            known_lines.append('KNOWN-FINDING: property=%s %s [%s]' % (pid, k['what'], k['id']))
         if hits and not remaining:
             r['known_finding'] = [k['id'] for k in hits]
             # a different violation of the same property must still be found: decided by the +excl twin
